@@ -39,6 +39,11 @@ class WorkerTmp:
             os.close(fd)
             raise
 
+        # the arbiter compares last_update() with time.monotonic(), but a
+        # new file carries the wall-clock time: a worker hanging before its
+        # first notify() would never be seen as timed out
+        self.notify()
+
     def notify(self):
         new_time = time.monotonic()
         os.utime(self._tmp.fileno(), (new_time, new_time))
